@@ -792,6 +792,13 @@ def extract_flags():
     kept = any(isinstance(n, ast.Attribute) and "noise" in n.attr.lower() and isinstance(n.value, ast.Name)
                and n.value.id == "self" for n in ast.walk(ctree))
     flags["build_protocol_fresh_noise_per_protocol"] = local_fresh and only_one_assign and handed and not kept
+    # mailbox world: the reconnecting service is Twisted's ClientService with its DEFAULT retry policy (the harness
+    # replaces the class, so a custom policy would be invisible to it): the constructor call has exactly two
+    # positional arguments and no keywords
+    from wormhole import _rendezvous as _rv
+    _t = ast.parse(textwrap.dedent(inspect.getsource(_rv.RendezvousConnector)))
+    _cs = [n for n in ast.walk(_t) if isinstance(n, ast.Call) and _call_name(n).endswith("ClientService")]
+    flags["clientservice_plain_constructor"] = (len(_cs) == 1 and len(_cs[0].args) == 2 and not _cs[0].keywords)
     return flags
 
 
